@@ -132,9 +132,30 @@ def exact_inputs(case):
 def fragile(case, ir, mr):
     """inputs on which a branch decision of the code sits within rounding distance of its threshold
     (DESIGN.md 3.2): excluded from the diff (never from the oracle), and counted."""
-    if mr.get("st") != "ok" or case["op"] != "test":
+    if mr.get("st") != "ok":
         return False
+    if case.get("stream") == "malformed" and ir.get("st") == "ok":
+        # out-of-domain input that the code does not reject (negative observations, g outside [0,1], ...):
+        # the float result is dominated by cancellation / signed zeros; only the status and the length of the
+        # result are compared (see compare), the numeric diff is skipped and counted here
+        key = "hist" if case["op"] == "test" else ("v" if case["op"] in ("estim", "bet") else None)
+        if key and len(ir.get(key, [])) == len(mr.get(key, [])):
+            return True
     init = case["init"]
+    if case["op"] in ("estim", "bet"):
+        # a null mean / t_adj within rounding distance of 0 or u flips np.minimum(c / t_adj, .) and the clips
+        if exact_inputs(case) or not case["x"]:
+            return False
+        u_ = F(init["u_now"] if init.get("u_now") is not None else init["u"])
+        N_ = init["N"]
+        if N_ is not None and len(case["x"]) > N_:
+            return True
+        for m in null_means(N_, F(init["t"]), [F(v) for v in case["x"]]):
+            if abs(m) < F(1, 10 ** 9) or abs(m - u_) < F(1, 10 ** 9):
+                return True
+        return False
+    if case["op"] != "test":
+        return False
     u = F(init["u_now"] if init.get("u_now") is not None else init["u"])
     atol = 2 * EPS
     exact = exact_inputs(case)
